@@ -73,6 +73,13 @@ THEOREMS = [
     # are injective (equal trees => equal content); the option handling of dump (dumpEncoding) = the generated chains
     'C10.valueUnit_model_float', 'C10.valueUnit_model_empty', 'C10.system_model_injective', 'C10.value_model_injective',
     'C10.gen_dumpEncoding_eq_model', 'C10.dumpEncoding_spec', 'C10.dumpEncoding_explicit', 'C10.dumpEncoding_encodes',
+    # round 5: the other API-level round trips through every encoding; the readers of Atoms / System / ElasticConstants
+    # depend on exactly the keys the source looks up
+    'C10.value_dump_load_end_to_end', 'C10.box_dump_load_end_to_end', 'C10.elastic_dump_load_end_to_end',
+    'C10.gen_atomsRead_reads_only', 'C10.gen_propRead_reads_only', 'C10.gen_systemRead_reads_only',
+    'C10.gen_ecRead_reads_only',
+    # round 5: last clause at the API level - dump under one configuration, load under another, every encoding
+    'C10.system_dump_load_two_units_end_to_end',
 ]
 PARTIAL = {
     'length-1 vector through XML text': "uc.value_unit alone reads a shape-(1,) array back from XML text as a "
@@ -193,7 +200,9 @@ ASSUMPTIONS = [
     'positions by 1e-10 on the generated cells (|entries| <= 8, |det| >= 8)',
 ]
 TRUSTED = ['DataModelDict / xmltodict / json text codecs (observed on every case, not verified)',
-           'numpy reshape/flatten/tolist/broadcast_to']
+           'numpy reshape/flatten/tolist/broadcast_to',
+           'the ast translator of harness/props/c10.py (restricted statement forms, refuses anything else; what it '
+           'matches form-for-form without a Lean statement is listed in docs/C10.md, round 5)']
 
 # ----------------------------------------------------------------------------------------
 # working-unit configurations and unit strings
@@ -4331,6 +4340,17 @@ def _tr_elastic(tree):
 
 
 def translate():
+    from ..translate import TranslationError
+    try:
+        return _translate()
+    except (TranslationError, cm.InfraError):
+        raise
+    except (AttributeError, TypeError, IndexError, KeyError, ValueError, AssertionError) as e:
+        # a statement of another kind where a particular one is expected: the source no longer has the translated form
+        raise _TE(f'source form not recognised ({type(e).__name__}: {e})')
+
+
+def _translate():
     import ast
     trees = {}
     for rel in ('atomman/unitconvert.py', 'atomman/core/Box.py', 'atomman/core/Atoms.py', 'atomman/core/System.py',
@@ -4387,11 +4407,22 @@ MANIFEST = {
             'value and dimension per name, base factors from the chosen working units) and an exact rational account of '
             'object sessions. Counts: the array read back from a value list is decided by all its entries in any cut '
             'into blocks (value_list_blocks_int / _tail_decides / _blocks_num / _blocks_str); long values (up to 131073 '
-            'stored numbers) and systems of 2^15 + 1 / 2^16 + 1 atoms go through tie and oracle on every run.',
+            'stored numbers) and systems of 2^15 + 1 / 2^16 + 1 atoms go through tie and oracle on every run. Round 5: '
+            'an ast translator regenerates Generated/ModelSource.lean from the current source on every run (keys each '
+            'writer stores with order / guards / packing by rank, keys each reader looks up, defaults, pass-through '
+            'keywords, setter tolerances, the format chains of dump, and the 36 entries of normalized_as as Lean '
+            'expressions by partial evaluation of ElasticConstants(**c_dict)); Proofs/C10_Source.lean proves each '
+            'generated definition equal to the hand model or the model\'s behaviour on all inputs equal to it '
+            '(gen_normForm_eq_model, gen_*_keys_eq_model, gen_*_reads_only, gen_dumpEncoding_eq_model ...); end-to-end '
+            'theorems compose call-form resolution, writer, text encoding (tree / json / xml) and reader into the '
+            'API-level statement load(dump(x)) = x for System, Atoms, Box, values and ElasticConstants; the writers are '
+            'injective; float arrays of every size incl. empty ones; the option handling of dump (dumpEncoding: tree / '
+            'json / xml / nothing) with its own correspondence op.',
     'note': 'Trusted: Lean kernel + propext/Classical.choice/Quot.sound; DataModelDict/xmltodict/json codecs (observed, '
             'not verified: JSON = identity on the tree, XML = xmlNorm); uc.parse factors are parameters (C09), supplied '
             'on each run by an evaluator that shares nothing with uc.parse; the Hill estimates behind '
             "normalized_as('isotropic') are parameters (C11); float rounding bounded by 2e-15 plus the unit "
             "expression's operation count (1e-9 norm-wise for box-scaled data and reciprocal vectors).",
-    'technique': 'Lean 4 theorems over a hand-written executable model + differential correspondence + clause oracle',
+    'technique': 'Lean 4 theorems over a hand-written executable model + ast translator with gen_..._eq_model obligations '
+                 '+ differential correspondence + clause oracle',
 }
